@@ -1,15 +1,19 @@
 import Infretis.Lemmas.RepexC07Frame
 /-!
-# C07 — the jobs issued along a scheduler history, and their streams
+# C07 — the jobs issued along a scheduler history, their ordinals and their streams
 
 `sysStepJ` is `sysStep` with a ghost output: the job the event issued (if any) together with the
 draw requests its `pick()` made on the scheduler stream.  `sysStepJ_sys` shows that it is `sysStep`
-as far as the state goes.  `ghost y evs` collects these outputs along a history, `issued` are the
-jobs in issue order, `schedDraws` the requests in order.
+as far as the state goes.  `ghost y evs` collects these outputs along a history as `Entry`s:
+the job, the ordinal put on record with it (`lockedOrd`, third component of the `locked` entry),
+whether it was a FRESH job (spawn counter advanced) or the RE-ISSUE of a job recorded in the restart
+file under its ordinal, and the draw requests.
 
-Main facts: the `k`-th job issued from a state with spawn counter `c` has the streams
-`(entropy, [c + k, j])` / `(entropy, [c + k, j, 0])`; the counter afterwards is `c + #issued`;
-the scheduler stream has advanced by exactly `#schedDraws`.
+Main facts (from ANY state): every entry's job carries the streams `(entropy, [ord, j])` /
+`(entropy, [ord, j, 0])` of its ordinal; the fresh entries have the ordinals
+`spawned, spawned + 1, …` in order and the counter afterwards is `spawned + #fresh`; the re-issue
+entries take, in order, ordinals on record in `locked0Ord`; the scheduler stream advances by exactly
+the draw requests.
 -/
 namespace Infretis.Repex
 open Infretis.Perm
@@ -22,25 +26,21 @@ def NoRestore (s : St) : Prop := s.restarted = false ∨ s.rgenRestored = true
 theorem pickLock_draws {s s' : St} {o : PickOutcome} {d : Nat} {ps : List Picked} {ds : List Draw}
     (hp : pickLock s o d = .ok (s', ps, ds)) (hr : NoRestore s) :
     s'.mainDraws = s.mainDraws + ds.length ∧ NoRestore s' ∧ (ds = [] ∨ DrawShape ds) := by
-  unfold pickLock at hp
-  split at hp
-  · rw [restoreStreamOnce_idle d hr] at hp
-    obtain ⟨hi, hm, hrr, _, hsh, _⟩ := pick_issue hp
+  cases hl0 : s.locked0 with
+  | nil =>
+    unfold pickLock at hp
+    rw [hl0] at hp
+    simp only [] at hp
+    rw [restoreStreamOnce_idle d hr] at hp
+    obtain ⟨hi, hm, hrr, _, _, hsh, _⟩ := pick_issue hp
     refine ⟨hm, ?_, Or.inr hsh⟩
     unfold NoRestore
     rw [hi.restarted, hrr]
     exact hr
-  · rename_i enss0 trajs0 rest hl0
-    split at hp
-    · exact absurd hp (by simp)
-    rename_i s1 pairs hre
-    split at hp
-    · exact absurd hp (by simp)
-    rename_i ps1 hmk
-    simp only [Except.ok.injEq, Prod.mk.injEq] at hp
-    obtain ⟨rfl, _, rfl⟩ := hp
-    unfold reissue at hre
-    obtain ⟨q, _⟩ := reissue_go_quiet _ hre
+  | cons r rest =>
+    obtain ⟨enss0, trajs0⟩ := r
+    obtain ⟨s1, pairs, hre, _, rfl, rfl⟩ := pickLock_reissue hl0 hp
+    obtain ⟨q, _, _⟩ := reissue_quiet hre
     refine ⟨q.mainDraws, ?_, Or.inl rfl⟩
     unfold NoRestore
     show s1.restarted = false ∨ s1.rgenRestored = true
@@ -62,19 +62,30 @@ theorem pickLock_draws_restored {s s' : St} {o : PickOutcome} {d : Nat} {ps : Li
   obtain ⟨_, hm, hrr, _⟩ := pick_issue hp
   exact ⟨hm, Or.inr hrr⟩
 
-/-- `pick_lock()` with nothing to re-issue records the job it issues -/
-theorem pickLock_locked {s s' : St} {o : PickOutcome} {d : Nat} {ps : List Picked} {ds : List Draw}
+/-- `pick_lock()` with nothing to re-issue is a fresh pick that records the job it issues -/
+theorem pickLock_fresh {s s' : St} {o : PickOutcome} {d : Nat} {ps : List Picked} {ds : List Draw}
     (hp : pickLock s o d = .ok (s', ps, ds)) (h0 : s.locked0 = []) :
-    s'.locked0 = [] ∧ ∃ es, s'.locked = s.locked ++ [(es, ps.map (·.pn))] := by
+    Issue s s' ps s.spawned true ∧ s'.locked0 = [] ∧
+      s'.locked = s.locked ++ [(ps.map (·.ens), ps.map (·.pn))] := by
   unfold pickLock at hp
   rw [h0] at hp
   simp only [] at hp
-  obtain ⟨_, _, _, hl0, _, es, hl⟩ := pick_issue hp
-  have h1 : (restoreStreamOnce s d).locked0 = s.locked0 := by
-    unfold restoreStreamOnce; split <;> rfl
-  have h2 : (restoreStreamOnce s d).locked = s.locked := by
-    unfold restoreStreamOnce; split <;> rfl
-  exact ⟨by rw [hl0, h1, h0], es, by rw [hl, h2]⟩
+  obtain ⟨hi, _, _, hl0, _, _, hl⟩ := pick_issue hp
+  have hr := restoreStreamOnce_seq s d
+  refine ⟨⟨hi.seed.trans hr.seed, hi.entropy.trans hr.entropy, hi.restarted.trans hr.restarted,
+    hi.cstep.trans hr.cstep, hi.workers.trans hr.workers, hi.tsteps.trans hr.tsteps, ?_, ?_, ?_, ?_⟩,
+    by rw [hl0, hr.locked0, h0], by rw [hl, hr.locked]⟩
+  · have := hi.streams
+    rw [hr.entropy, hr.spawned] at this
+    exact this
+  · rw [← hr.locked]; exact hi.locked
+  · rw [← hr.lockedOrd, ← hr.spawned]; exact hi.lockedOrd
+  · rcases hi.kind with ⟨_, _, h3, h4⟩ | ⟨h1, _⟩
+    · refine Or.inl ⟨rfl, rfl, by rw [h3, hr.spawned], ?_⟩
+      rcases h4 with h | h
+      · exact Or.inl (h.trans hr.locked0Ord)
+      · exact Or.inr (by rw [h, hr.locked0Ord])
+    · exact absurd h1 (by simp)
 
 /-- `prep_md_items` = `pick_lock()` / `pick()` + pin + engine assignment: the latter touch `occ` only
     and re-label `eng_idx` of the picked entries -/
@@ -99,7 +110,7 @@ theorem prep_decomp {s s' : St} {prev : Option Nat} {o : PickOutcome} {d : Nat} 
   · exact absurd h (by simp)
   simp only [Except.ok.injEq, Prod.mk.injEq] at h
   obtain ⟨rfl, rfl, rfl⟩ := h
-  exact ⟨s1, ps, hr, ⟨⟨rfl, rfl, rfl, rfl, rfl, rfl, rfl, rfl, rfl, rfl⟩, rfl⟩, ⟨_, rfl⟩, rfl⟩
+  exact ⟨s1, ps, hr, ⟨⟨rfl, rfl, rfl, rfl, rfl, rfl, rfl, rfl, rfl, rfl, rfl⟩, rfl, rfl⟩, ⟨_, rfl⟩, rfl⟩
 
 theorem getElem?_map_engIdx {ps : List Picked} {f : Picked → List (Nat × Nat)} {j : Nat} {p' : Picked}
     (h : (ps.map (fun p => { p with engIdx := f p }))[j]? = some p') :
@@ -117,25 +128,43 @@ theorem map_pn_map_engIdx (ps : List Picked) (f : Picked → List (Nat × Nat)) 
     (ps.map (fun p => { p with engIdx := f p })).map (·.pn) = ps.map (·.pn) := by
   simp [List.map_map, Function.comp_def]
 
-/-- **`prep_md_items` issues one job**: one child spawned, the job's entry `j` carries
-    `(entropy, [spawned, j])` / `(entropy, [spawned, j, 0])`. -/
-theorem prep_issue {s s' : St} {prev : Option Nat} {o : PickOutcome} {d : Nat} {job : Job}
-    {ds : List Draw} (h : prep s prev o d = .ok (s', job, ds)) : Issue s s' job.picked := by
-  obtain ⟨s1, ps, hr, ⟨q, ql⟩, ⟨f, hf⟩, _⟩ := prep_decomp h
-  have hi : Issue s s1 ps := by
-    split at hr
-    · exact pickLock_issue hr
-    · exact (pick_issue hr).1
-  refine ⟨q.seed.trans hi.seed, q.entropy.trans hi.entropy, q.spawned.trans hi.spawned,
-    q.restarted.trans hi.restarted, q.cstep.trans hi.cstep, q.workers.trans hi.workers,
-    q.tsteps.trans hi.tsteps, ?_, ?_⟩
-  · intro j p' hp'
-    rw [hf] at hp'
-    obtain ⟨p, hp, e1, e2, _⟩ := getElem?_map_engIdx hp'
-    rw [e1, e2]
-    exact hi.streams j p hp
+
+theorem map_ens_map_engIdx (ps : List Picked) (f : Picked → List (Nat × Nat)) :
+    (ps.map (fun p => { p with engIdx := f p })).map (·.ens) = ps.map (·.ens) := by
+  simp [List.map_map, Function.comp_def]
+
+theorem StreamsAt.map_engIdx {en ord : Nat} {ps : List Picked} (h : StreamsAt en ord ps)
+    (f : Picked → List (Nat × Nat)) : StreamsAt en ord (ps.map (fun p => { p with engIdx := f p })) := by
+  intro j p' hp'
+  obtain ⟨p, hp, e1, e2, _⟩ := getElem?_map_engIdx hp'
+  rw [e1, e2]
+  exact h j p hp
+
+theorem Issue.of_quiet {s s1 s' : St} {ps : List Picked} {ord : Nat} {fresh : Bool}
+    (hi : Issue s s1 ps ord fresh) (hq : Quiet s1 s') (f : Picked → List (Nat × Nat)) :
+    Issue s s' (ps.map (fun p => { p with engIdx := f p })) ord fresh := by
+  obtain ⟨q, ql, qo⟩ := hq
+  refine ⟨q.seed.trans hi.seed, q.entropy.trans hi.entropy, q.restarted.trans hi.restarted,
+    q.cstep.trans hi.cstep, q.workers.trans hi.workers, q.tsteps.trans hi.tsteps,
+    hi.streams.map_engIdx f, ?_, by rw [qo, hi.lockedOrd], ?_⟩
   · obtain ⟨entry, he⟩ := hi.locked
     exact ⟨entry, by rw [ql, he]⟩
+  · rw [q.spawned, q.locked0Ord]
+    exact hi.kind
+
+/-- **`prep_md_items` issues one job** carrying the streams of the ordinal put on record with it:
+    the next fresh ordinal (counter advanced) or the ordinal on record of a re-issued job. -/
+theorem prep_issue {s s' : St} {prev : Option Nat} {o : PickOutcome} {d : Nat} {job : Job}
+    {ds : List Draw} (h : prep s prev o d = .ok (s', job, ds)) :
+    ∃ ord fresh, Issue s s' job.picked ord fresh := by
+  obtain ⟨s1, ps, hr, hq, ⟨f, hf⟩, _⟩ := prep_decomp h
+  have hi : ∃ ord fresh, Issue s s1 ps ord fresh := by
+    split at hr
+    · exact pickLock_issue hr
+    · exact ⟨_, _, (pick_issue hr).1⟩
+  obtain ⟨ord, fresh, hi⟩ := hi
+  rw [hf]
+  exact ⟨ord, fresh, hi.of_quiet hq f⟩
 
 theorem prep_draws {s s' : St} {prev : Option Nat} {o : PickOutcome} {d : Nat} {job : Job}
     {ds : List Draw} (h : prep s prev o d = .ok (s', job, ds)) (hn : NoRestore s) :
@@ -144,7 +173,7 @@ theorem prep_draws {s s' : St} {prev : Option Nat} {o : PickOutcome} {d : Nat} {
   have key : s1.mainDraws = s.mainDraws + ds.length ∧ NoRestore s1 ∧ (ds = [] ∨ DrawShape ds) := by
     split at hr
     · exact pickLock_draws hr hn
-    · obtain ⟨hi, hm, hrr, _, hsh, _⟩ := pick_issue hr
+    · obtain ⟨hi, hm, hrr, _, _, hsh, _⟩ := pick_issue hr
       refine ⟨hm, ?_, Or.inr hsh⟩
       unfold NoRestore
       rw [hi.restarted, hrr]
@@ -154,19 +183,22 @@ theorem prep_draws {s s' : St} {prev : Option Nat} {o : PickOutcome} {d : Nat} {
   rw [q.restarted, q.rgenRestored]
   exact key.2.1
 
-/-- with nothing to re-issue, `prep_md_items` records exactly the path numbers of the job it issues -/
-theorem prep_locked {s s' : St} {prev : Option Nat} {o : PickOutcome} {d : Nat} {job : Job}
+/-- with nothing to re-issue, `prep_md_items` is a fresh issue and records exactly the ensembles and
+    path numbers of the job -/
+theorem prep_fresh {s s' : St} {prev : Option Nat} {o : PickOutcome} {d : Nat} {job : Job}
     {ds : List Draw} (h : prep s prev o d = .ok (s', job, ds)) (h0 : s.locked0 = []) :
-    s'.locked0 = [] ∧ ∃ es, s'.locked = s.locked ++ [(es, job.picked.map (·.pn))] := by
-  obtain ⟨s1, ps, hr, ⟨q, ql⟩, ⟨f, hf⟩, _⟩ := prep_decomp h
-  have key : s1.locked0 = [] ∧ ∃ es, s1.locked = s.locked ++ [(es, ps.map (·.pn))] := by
+    Issue s s' job.picked s.spawned true ∧ s'.locked0 = [] ∧
+      s'.locked = s.locked ++ [(job.picked.map (·.ens), job.picked.map (·.pn))] := by
+  obtain ⟨s1, ps, hr, hq, ⟨f, hf⟩, _⟩ := prep_decomp h
+  have key : Issue s s1 ps s.spawned true ∧ s1.locked0 = [] ∧
+      s1.locked = s.locked ++ [(ps.map (·.ens), ps.map (·.pn))] := by
     split at hr
-    · exact pickLock_locked hr h0
-    · obtain ⟨_, _, _, hl0, _, hl⟩ := pick_issue hr
-      exact ⟨by rw [hl0, h0], hl⟩
-  obtain ⟨k0, es, hl⟩ := key
-  refine ⟨by rw [q.locked0, k0], es, ?_⟩
-  rw [ql, hl, hf, map_pn_map_engIdx]
+    · exact pickLock_fresh hr h0
+    · obtain ⟨hi, _, _, hl0, _, _, hl⟩ := pick_issue hr
+      exact ⟨hi, by rw [hl0, h0], hl⟩
+  obtain ⟨hi, k0, hl⟩ := key
+  rw [hf, map_pn_map_engIdx, map_ens_map_engIdx]
+  exact ⟨hi.of_quiet hq f, by rw [hq.1.locked0, k0], by rw [hq.2.1, hl]⟩
 
 /-! ### the scheduler loop with a ghost log of issued jobs -/
 
@@ -245,20 +277,35 @@ theorem sysStepJ_of_sys {y y' : Sys} {ev : Ev} (h : sysStep y ev = .ok y') :
     exact ⟨r.2, hr⟩
   · exact absurd h (by simp)
 
-/-- ghost log of a history: (job, its draw requests) per issuing event, in order; stops where the
-    sampler raises -/
-def ghost (y : Sys) : List Ev → List (Job × List Draw)
+/-- one entry of the issue log -/
+structure Entry where
+  /-- the ordinal put on record with the job (third component of its `locked` entry) -/
+  ord : Nat
+  /-- `true`: a fresh job (spawn counter advanced); `false`: a recorded job re-issued under its ordinal -/
+  fresh : Bool
+  job : Job
+  draws : List Draw
+
+/-- the tag of the job issued between states `sb` (before) and `sa` (after): the last recorded
+    ordinal, and whether the spawn counter moved -/
+def tagOf (sb sa : St) : Nat × Bool := ((sa.lockedOrd.getLast?).getD 0, sa.spawned != sb.spawned)
+
+/-- ghost log of a history: one `Entry` per issuing event, in order; stops where the sampler raises -/
+def ghost (y : Sys) : List Ev → List Entry
   | [] => []
   | ev :: rest =>
     match sysStepJ y ev with
     | .error _ => []
-    | .ok (y', oj) => oj.toList ++ ghost y' rest
+    | .ok (y', oj) =>
+      (oj.toList.map (fun jd =>
+        { ord := (tagOf y.s y'.s).1, fresh := (tagOf y.s y'.s).2, job := jd.1, draws := jd.2 : Entry }))
+        ++ ghost y' rest
 
-/-- the jobs issued along a history, in issue order -/
-def issued (y : Sys) (evs : List Ev) : List Job := (ghost y evs).map (·.1)
+/-- the jobs issued along a history (fresh and re-issued), in issue order -/
+def issued (y : Sys) (evs : List Ev) : List Job := (ghost y evs).map (·.job)
 
 /-- the draw requests made on the scheduler stream along a history, in order -/
-def schedDraws (y : Sys) (evs : List Ev) : List Draw := (ghost y evs).flatMap (·.2)
+def schedDraws (y : Sys) (evs : List Ev) : List Draw := (ghost y evs).flatMap (·.draws)
 
 theorem run_cons {y y' : Sys} {ev : Ev} {rest : List Ev} (h : run y (ev :: rest) = .ok y') :
     ∃ y1 oj, sysStepJ y ev = .ok (y1, oj) ∧ run y1 rest = .ok y' := by
@@ -284,11 +331,6 @@ theorem ghost_append : ∀ (evs : List Ev) {y y1 : Sys} (evs' : List Ev), run y 
     simp only [List.cons_append, ghost, hj]
     rw [ih evs' hr, List.append_assoc]
 
-theorem issued_append {y y1 : Sys} {evs : List Ev} (evs' : List Ev) (h : run y evs = .ok y1) :
-    issued y (evs ++ evs') = issued y evs ++ issued y1 evs' := by
-  unfold issued
-  rw [ghost_append evs evs' h, List.map_append]
-
 theorem run_append {y y1 y2 : Sys} : ∀ {evs : List Ev} {evs' : List Ev}, run y evs = .ok y1 →
     run y1 evs' = .ok y2 → run y (evs ++ evs') = .ok y2 := by
   intro evs
@@ -306,368 +348,6 @@ theorem run_append {y y1 y2 : Sys} : ∀ {evs : List Ev} {evs' : List Ev}, run y
     rename_i y3 h3
     simp only [List.cons_append, run, h3]
     exact ih h h'
-
-/-! ### one event -/
-
-/-- what one event does to the seed sequence: the counter goes up by the number of jobs issued (0 or
-    1) and the issued job carries `(entropy, [spawned, j])` / `(entropy, [spawned, j, 0])` -/
-theorem sysStepJ_issue {y y' : Sys} {ev : Ev} {oj : Option (Job × List Draw)}
-    (h : sysStepJ y ev = .ok (y', oj)) :
-    y'.s.seed = y.s.seed ∧ y'.s.entropy = y.s.entropy ∧
-    y'.s.spawned = y.s.spawned + oj.toList.length ∧
-    ∀ job ds, oj = some (job, ds) → ∀ j p, job.picked[j]? = some p →
-      p.rgen = moveStream y.s.entropy y.s.spawned j ∧ p.rgenEng = engStream y.s.entropy y.s.spawned j := by
-  cases ev with
-  | start o saved =>
-    simp only [sysStepJ] at h
-    have hq := (initiate_quiet y.s).1
-    generalize initiate y.s = r at h hq
-    obtain ⟨s1, go⟩ := r
-    simp only [] at h hq
-    split at h
-    · exact absurd h (by simp)
-    split at h
-    · exact absurd h (by simp)
-    rename_i s2 job ds hprep
-    simp only [Except.ok.injEq, Prod.mk.injEq] at h
-    obtain ⟨rfl, rfl⟩ := h
-    have hi := prep_issue hprep
-    refine ⟨hi.seed.trans hq.seed, hi.entropy.trans hq.entropy, ?_, ?_⟩
-    · show s2.spawned = y.s.spawned + 1
-      rw [hi.spawned, hq.spawned]
-    · intro job' ds' he j p hp
-      simp only [Option.some.injEq, Prod.mk.injEq] at he
-      obtain ⟨rfl, _⟩ := he
-      rw [← hq.entropy, ← hq.spawned]
-      exact hi.streams j p hp
-  | initDone =>
-    simp only [sysStepJ] at h
-    have hq := (initiate_quiet y.s).1
-    generalize initiate y.s = r at h hq
-    obtain ⟨s1, go⟩ := r
-    simp only [] at h hq
-    split at h
-    · exact absurd h (by simp)
-    simp only [Except.ok.injEq, Prod.mk.injEq] at h
-    obtain ⟨rfl, rfl⟩ := h
-    exact ⟨hq.seed, hq.entropy, hq.spawned, by intro _ _ he; simp at he⟩
-  | step k status newW o =>
-    simp only [sysStepJ] at h
-    generalize hloop : loop y.s = r at h
-    obtain ⟨s1, go⟩ := r
-    simp only [] at h
-    split at h
-    · exact absurd h (by simp)
-    rename_i hgo
-    have hgo : go = true := by simpa using hgo
-    subst hgo
-    have hs1 := loop_true hloop
-    split at h
-    · exact absurd h (by simp)
-    rename_i job hjob
-    split at h
-    · exact absurd h (by simp)
-    rename_i s2 pns it htreat
-    obtain ⟨hq, _⟩ := treatOutput_quiet job status newW _ pns it htreat
-    have e1 : s2.seed = y.s.seed := by rw [hq.seed, hs1]
-    have e2 : s2.entropy = y.s.entropy := by rw [hq.entropy, hs1]
-    have e3 : s2.spawned = y.s.spawned := by rw [hq.spawned, hs1]
-    split at h
-    · split at h
-      · exact absurd h (by simp)
-      rename_i s3 job' ds hprep
-      simp only [Except.ok.injEq, Prod.mk.injEq] at h
-      obtain ⟨rfl, rfl⟩ := h
-      have hi := prep_issue hprep
-      refine ⟨hi.seed.trans e1, hi.entropy.trans e2, ?_, ?_⟩
-      · show s3.spawned = y.s.spawned + 1
-        rw [hi.spawned, e3]
-      · intro job'' ds' he j p hp
-        simp only [Option.some.injEq, Prod.mk.injEq] at he
-        obtain ⟨rfl, _⟩ := he
-        rw [← e2, ← e3]
-        exact hi.streams j p hp
-    · simp only [Except.ok.injEq, Prod.mk.injEq] at h
-      obtain ⟨rfl, rfl⟩ := h
-      exact ⟨e1, e2, e3, by intro _ _ he; simp at he⟩
-
-/-- one event and the scheduler stream's position -/
-theorem sysStepJ_draws {y y' : Sys} {ev : Ev} {oj : Option (Job × List Draw)}
-    (h : sysStepJ y ev = .ok (y', oj)) (hn : NoRestore y.s) :
-    NoRestore y'.s ∧ y'.s.mainDraws = y.s.mainDraws + (oj.toList.flatMap (·.2)).length ∧
-      ∀ job ds, oj = some (job, ds) → ds = [] ∨ DrawShape ds := by
-  cases ev with
-  | start o saved =>
-    simp only [sysStepJ] at h
-    have hq := (initiate_quiet y.s).1
-    generalize initiate y.s = r at h hq
-    obtain ⟨s1, go⟩ := r
-    simp only [] at h hq
-    split at h
-    · exact absurd h (by simp)
-    split at h
-    · exact absurd h (by simp)
-    rename_i s2 job ds hprep
-    simp only [Except.ok.injEq, Prod.mk.injEq] at h
-    obtain ⟨rfl, rfl⟩ := h
-    have hn1 : NoRestore s1 := by
-      unfold NoRestore; rw [hq.restarted, hq.rgenRestored]; exact hn
-    obtain ⟨hm, hn2, hsh⟩ := prep_draws hprep hn1
-    refine ⟨hn2, ?_, ?_⟩
-    · show s2.mainDraws = y.s.mainDraws + _
-      rw [hm, hq.mainDraws]
-      simp
-    · intro job' ds' he
-      simp only [Option.some.injEq, Prod.mk.injEq] at he
-      obtain ⟨_, rfl⟩ := he
-      exact hsh
-  | initDone =>
-    simp only [sysStepJ] at h
-    have hq := (initiate_quiet y.s).1
-    generalize initiate y.s = r at h hq
-    obtain ⟨s1, go⟩ := r
-    simp only [] at h hq
-    split at h
-    · exact absurd h (by simp)
-    simp only [Except.ok.injEq, Prod.mk.injEq] at h
-    obtain ⟨rfl, rfl⟩ := h
-    refine ⟨?_, by simpa using hq.mainDraws, by intro _ _ he; simp at he⟩
-    unfold NoRestore
-    show s1.restarted = false ∨ s1.rgenRestored = true
-    rw [hq.restarted, hq.rgenRestored]; exact hn
-  | step k status newW o =>
-    simp only [sysStepJ] at h
-    generalize hloop : loop y.s = r at h
-    obtain ⟨s1, go⟩ := r
-    simp only [] at h
-    split at h
-    · exact absurd h (by simp)
-    rename_i hgo
-    have hgo : go = true := by simpa using hgo
-    subst hgo
-    have hs1 := loop_true hloop
-    split at h
-    · exact absurd h (by simp)
-    rename_i job hjob
-    split at h
-    · exact absurd h (by simp)
-    rename_i s2 pns it htreat
-    obtain ⟨hq, _⟩ := treatOutput_quiet job status newW _ pns it htreat
-    have e1 : s2.mainDraws = y.s.mainDraws := by rw [hq.mainDraws, hs1]
-    have hn2 : NoRestore s2 := by
-      unfold NoRestore; rw [hq.restarted, hq.rgenRestored, hs1]; exact hn
-    split at h
-    · split at h
-      · exact absurd h (by simp)
-      rename_i s3 job' ds hprep
-      simp only [Except.ok.injEq, Prod.mk.injEq] at h
-      obtain ⟨rfl, rfl⟩ := h
-      obtain ⟨hm, hn3, hsh⟩ := prep_draws hprep hn2
-      refine ⟨hn3, ?_, ?_⟩
-      · show s3.mainDraws = y.s.mainDraws + _
-        rw [hm, e1]
-        simp
-      · intro job'' ds' he
-        simp only [Option.some.injEq, Prod.mk.injEq] at he
-        obtain ⟨_, rfl⟩ := he
-        exact hsh
-    · simp only [Except.ok.injEq, Prod.mk.injEq] at h
-      obtain ⟨rfl, rfl⟩ := h
-      exact ⟨hn2, by simpa using e1, by intro _ _ he; simp at he⟩
-
-/-! ### whole histories -/
-
-/-- streams of a list of jobs numbered from ordinal `base` in a seed sequence with entropy `en` -/
-def StreamsFrom (en base : Nat) (jobs : List Job) : Prop :=
-  ∀ k job, jobs[k]? = some job → ∀ j p, job.picked[j]? = some p →
-    p.rgen = moveStream en (base + k) j ∧ p.rgenEng = engStream en (base + k) j
-
-theorem StreamsFrom.nil (en base : Nat) : StreamsFrom en base [] := by
-  intro k job h; simp at h
-
-theorem StreamsFrom.append {en base : Nat} {l1 l2 : List Job} (h1 : StreamsFrom en base l1)
-    (h2 : StreamsFrom en (base + l1.length) l2) : StreamsFrom en base (l1 ++ l2) := by
-  intro k job hk j p hp
-  rcases Nat.lt_or_ge k l1.length with hlt | hge
-  · rw [List.getElem?_append_left hlt] at hk
-    exact h1 k job hk j p hp
-  · rw [List.getElem?_append_right hge] at hk
-    have := h2 (k - l1.length) job hk j p hp
-    have e : base + l1.length + (k - l1.length) = base + k := by omega
-    rw [e] at this
-    exact this
-
-/-- **the jobs issued along any history** (from any state, whether or not the history later raises):
-    the `k`-th one carries the streams of ordinal `spawned + k` -/
-theorem issued_streams : ∀ (evs : List Ev) (y : Sys),
-    StreamsFrom y.s.entropy y.s.spawned (issued y evs) := by
-  intro evs
-  induction evs with
-  | nil => intro y; exact StreamsFrom.nil _ _
-  | cons ev rest ih =>
-    intro y
-    unfold issued
-    simp only [ghost]
-    split
-    · exact StreamsFrom.nil _ _
-    rename_i y1 oj hj
-    obtain ⟨_, hen, hsp, hst⟩ := sysStepJ_issue hj
-    rw [List.map_append]
-    apply StreamsFrom.append
-    · cases oj with
-      | none => exact StreamsFrom.nil _ _
-      | some jd =>
-        obtain ⟨job, ds⟩ := jd
-        intro k job' hk j p hp
-        cases k with
-        | zero =>
-          simp only [Option.toList_some, List.map_cons, List.map_nil, List.getElem?_cons_zero,
-            Option.some.injEq] at hk
-          subst hk
-          exact hst job ds rfl j p hp
-        | succ k => simp at hk
-    · have := ih y1
-      rw [hen, hsp] at this
-      simp only [List.length_map]
-      exact this
-
-/-- the seed and entropy never change along a history and the spawn counter counts the jobs issued -/
-theorem run_spawned : ∀ (evs : List Ev) {y y' : Sys}, run y evs = .ok y' →
-    y'.s.seed = y.s.seed ∧ y'.s.entropy = y.s.entropy ∧
-      y'.s.spawned = y.s.spawned + (issued y evs).length := by
-  intro evs
-  induction evs with
-  | nil =>
-    intro y y' h
-    simp only [run, Except.ok.injEq] at h
-    subst h
-    exact ⟨rfl, rfl, by simp [issued, ghost]⟩
-  | cons ev rest ih =>
-    intro y y' h
-    obtain ⟨y1, oj, hj, hr⟩ := run_cons h
-    obtain ⟨h1, h2, h3, _⟩ := sysStepJ_issue hj
-    obtain ⟨g1, g2, g3⟩ := ih hr
-    refine ⟨g1.trans h1, g2.trans h2, ?_⟩
-    rw [g3, h3]
-    simp only [issued, ghost, hj, List.map_append, List.length_append, List.length_map]
-    omega
-
-/-- the scheduler stream advances by exactly the draw requests of the picks -/
-theorem run_mainDraws : ∀ (evs : List Ev) {y y' : Sys}, run y evs = .ok y' → NoRestore y.s →
-    NoRestore y'.s ∧ y'.s.mainDraws = y.s.mainDraws + (schedDraws y evs).length := by
-  intro evs
-  induction evs with
-  | nil =>
-    intro y y' h hn
-    simp only [run, Except.ok.injEq] at h
-    subst h
-    exact ⟨hn, by simp [schedDraws, ghost]⟩
-  | cons ev rest ih =>
-    intro y y' h hn
-    obtain ⟨y1, oj, hj, hr⟩ := run_cons h
-    obtain ⟨hn1, hm1, _⟩ := sysStepJ_draws hj hn
-    obtain ⟨hn2, hm2⟩ := ih hr hn1
-    refine ⟨hn2, ?_⟩
-    rw [hm2, hm1]
-    simp only [schedDraws, ghost, hj, List.flatMap_append, List.length_append]
-    omega
-
-/-- every group of requests in the ghost log has one of the three shapes of `pick()` (or is empty:
-    a re-issued job draws nothing) -/
-theorem ghost_drawShape : ∀ (evs : List Ev) (y : Sys), NoRestore y.s →
-    ∀ jd ∈ ghost y evs, jd.2 = [] ∨ DrawShape jd.2 := by
-  intro evs
-  induction evs with
-  | nil => intro y _ jd h; simp [ghost] at h
-  | cons ev rest ih =>
-    intro y hn jd hjd
-    simp only [ghost] at hjd
-    split at hjd
-    · simp at hjd
-    rename_i y1 oj hj
-    obtain ⟨hn1, _, hsh⟩ := sysStepJ_draws hj hn
-    rcases List.mem_append.mp hjd with hm | hm
-    · cases oj with
-      | none => simp at hm
-      | some x =>
-        simp only [Option.toList_some, List.mem_singleton] at hm
-        subst hm
-        exact hsh jd.1 jd.2 rfl
-    · exact ih y1 hn1 jd hm
-
-/-- every job in flight at the end was there at the beginning or was issued by the history -/
-theorem jobs_subset_issued : ∀ (evs : List Ev) {y y' : Sys}, run y evs = .ok y' →
-    ∀ job ∈ y'.jobs, job ∈ y.jobs ∨ job ∈ issued y evs := by
-  intro evs
-  induction evs with
-  | nil =>
-    intro y y' h job hm
-    simp only [run, Except.ok.injEq] at h
-    subst h
-    exact Or.inl hm
-  | cons ev rest ih =>
-    intro y y' h job hm
-    obtain ⟨y1, oj, hj, hr⟩ := run_cons h
-    have hstep : ∀ job ∈ y1.jobs, job ∈ y.jobs ∨ job ∈ oj.toList.map (·.1) := by
-      intro job hm1
-      cases ev with
-      | start o saved =>
-        simp only [sysStepJ] at hj
-        generalize initiate y.s = r at hj
-        obtain ⟨s1, go⟩ := r
-        simp only [] at hj
-        split at hj
-        · exact absurd hj (by simp)
-        split at hj
-        · exact absurd hj (by simp)
-        simp only [Except.ok.injEq, Prod.mk.injEq] at hj
-        obtain ⟨rfl, rfl⟩ := hj
-        rcases List.mem_append.mp hm1 with h1 | h1
-        · exact Or.inl h1
-        · exact Or.inr (by simpa using h1)
-      | initDone =>
-        simp only [sysStepJ] at hj
-        generalize initiate y.s = r at hj
-        obtain ⟨s1, go⟩ := r
-        simp only [] at hj
-        split at hj
-        · exact absurd hj (by simp)
-        simp only [Except.ok.injEq, Prod.mk.injEq] at hj
-        obtain ⟨rfl, rfl⟩ := hj
-        exact Or.inl hm1
-      | step k status newW o =>
-        simp only [sysStepJ] at hj
-        generalize loop y.s = r at hj
-        obtain ⟨s1, go⟩ := r
-        simp only [] at hj
-        split at hj
-        · exact absurd hj (by simp)
-        split at hj
-        · exact absurd hj (by simp)
-        split at hj
-        · exact absurd hj (by simp)
-        split at hj
-        · split at hj
-          · exact absurd hj (by simp)
-          simp only [Except.ok.injEq, Prod.mk.injEq] at hj
-          obtain ⟨rfl, rfl⟩ := hj
-          rcases List.mem_append.mp hm1 with h1 | h1
-          · exact Or.inl (List.mem_of_mem_eraseIdx h1)
-          · exact Or.inr (by simpa using h1)
-        · simp only [Except.ok.injEq, Prod.mk.injEq] at hj
-          obtain ⟨rfl, rfl⟩ := hj
-          exact Or.inl (List.mem_of_mem_eraseIdx hm1)
-    rcases ih hr job hm with h1 | h1
-    · rcases hstep job h1 with h2 | h2
-      · exact Or.inl h2
-      · right
-        simp only [issued, ghost, hj, List.map_append, List.mem_append]
-        exact Or.inl h2
-    · right
-      simp only [issued, ghost, hj, List.map_append, List.mem_append]
-      exact Or.inr h1
-
-/-! ### the events, decomposed (used by the counting invariant) -/
 
 /-- the state `treat_output` leaves behind when job `k` completes: the instant at which the code
     writes `restart.toml` (before the next `prep_md_items`) -/
@@ -748,12 +428,386 @@ theorem sysStepJ_step {y y' : Sys} {k : Nat} {status : Status} {newW : List (Lis
     obtain ⟨rfl, rfl⟩ := h
     exact Or.inr ⟨rfl, rfl, rfl⟩
 
+/-! ### one event -/
+
+/-- what one event does to the seed sequence -/
+theorem sysStepJ_issue {y y' : Sys} {ev : Ev} {oj : Option (Job × List Draw)}
+    (h : sysStepJ y ev = .ok (y', oj)) :
+    y'.s.seed = y.s.seed ∧ y'.s.entropy = y.s.entropy ∧
+    (oj = none → y'.s.spawned = y.s.spawned ∧ y'.s.locked0Ord = y.s.locked0Ord) ∧
+    ∀ job ds, oj = some (job, ds) → ∃ ord fresh, tagOf y.s y'.s = (ord, fresh) ∧
+      StreamsAt y.s.entropy ord job.picked ∧
+      ((fresh = true ∧ ord = y.s.spawned ∧ y'.s.spawned = y.s.spawned + 1 ∧
+          (y'.s.locked0Ord = y.s.locked0Ord ∨ y'.s.locked0Ord = y.s.locked0Ord.tail)) ∨
+       (fresh = false ∧ y'.s.spawned = y.s.spawned ∧ y.s.locked0Ord = some ord :: y'.s.locked0Ord)) := by
+  -- the common part: an `Issue` from a state that agrees with `y.s` on the stream fields
+  have key : ∀ (sb : St) (job : Job) (ord : Nat) (fresh : Bool), sb.entropy = y.s.entropy →
+      sb.spawned = y.s.spawned → sb.locked0Ord = y.s.locked0Ord → Issue sb y'.s job.picked ord fresh →
+      tagOf y.s y'.s = (ord, fresh) ∧ StreamsAt y.s.entropy ord job.picked ∧
+      ((fresh = true ∧ ord = y.s.spawned ∧ y'.s.spawned = y.s.spawned + 1 ∧
+          (y'.s.locked0Ord = y.s.locked0Ord ∨ y'.s.locked0Ord = y.s.locked0Ord.tail)) ∨
+       (fresh = false ∧ y'.s.spawned = y.s.spawned ∧ y.s.locked0Ord = some ord :: y'.s.locked0Ord)) := by
+    intro sb job ord fresh e1 e2 e3 hi
+    have hk := hi.kind
+    rw [e2, e3] at hk
+    refine ⟨?_, by rw [← e1]; exact hi.streams, hk⟩
+    unfold tagOf
+    rw [hi.lockedOrd]
+    simp only [List.getLast?_append, List.getLast?_singleton, Option.some_or, Option.getD_some]
+    rcases hk with ⟨hf, _, h3, _⟩ | ⟨hf, h3, _⟩
+    · rw [h3, hf]; simp
+    · rw [h3, hf]; simp
+  cases ev with
+  | start o saved =>
+    obtain ⟨s1, job, ds, ⟨q, _, _⟩, hprep, _, hoj⟩ := sysStepJ_start h
+    obtain ⟨ord, fresh, hi⟩ := prep_issue hprep
+    refine ⟨hi.seed.trans q.seed, hi.entropy.trans q.entropy, by intro hn; rw [hn] at hoj; simp at hoj, ?_⟩
+    intro job' ds' he
+    rw [hoj] at he
+    simp only [Option.some.injEq, Prod.mk.injEq] at he
+    obtain ⟨rfl, _⟩ := he
+    exact ⟨ord, fresh, key s1 job ord fresh q.entropy q.spawned q.locked0Ord hi⟩
+  | initDone =>
+    obtain ⟨⟨q, _, _⟩, _, hoj⟩ := sysStepJ_initDone h
+    exact ⟨q.seed, q.entropy, fun _ => ⟨q.spawned, q.locked0Ord⟩, by intro _ _ he; rw [hoj] at he; simp at he⟩
+  | step k status newW o =>
+    obtain ⟨job, s2, hjob, hmid, hrest⟩ := sysStepJ_step h
+    -- the mid state agrees with `y.s` on the stream fields
+    have hm : s2.seed = y.s.seed ∧ s2.entropy = y.s.entropy ∧ s2.spawned = y.s.spawned ∧
+        s2.locked0Ord = y.s.locked0Ord := by
+      unfold midState at hmid
+      simp only [hjob] at hmid
+      split at hmid
+      · exact absurd hmid (by simp)
+      rename_i s2' pns it htreat
+      simp only [Except.ok.injEq] at hmid
+      subst hmid
+      obtain ⟨q, _⟩ := treatOutput_quiet job status newW _ pns it htreat
+      exact ⟨q.seed, q.entropy, q.spawned, q.locked0Ord⟩
+    obtain ⟨m1, m2, m3, m4⟩ := hm
+    rcases hrest with ⟨job', ds, hprep, _, hoj⟩ | ⟨hs, _, hoj⟩
+    · obtain ⟨ord, fresh, hi⟩ := prep_issue hprep
+      refine ⟨hi.seed.trans m1, hi.entropy.trans m2, by intro hn; rw [hn] at hoj; simp at hoj, ?_⟩
+      intro job'' ds' he
+      rw [hoj] at he
+      simp only [Option.some.injEq, Prod.mk.injEq] at he
+      obtain ⟨rfl, _⟩ := he
+      exact ⟨ord, fresh, key s2 job' ord fresh m2 m3 m4 hi⟩
+    · rw [hs]
+      exact ⟨m1, m2, fun _ => ⟨m3, m4⟩, by intro _ _ he; rw [hoj] at he; simp at he⟩
+
+/-- one event and the scheduler stream's position -/
+theorem sysStepJ_draws {y y' : Sys} {ev : Ev} {oj : Option (Job × List Draw)}
+    (h : sysStepJ y ev = .ok (y', oj)) (hn : NoRestore y.s) :
+    NoRestore y'.s ∧ y'.s.mainDraws = y.s.mainDraws + (oj.toList.flatMap (·.2)).length ∧
+      ∀ job ds, oj = some (job, ds) → ds = [] ∨ DrawShape ds := by
+  cases ev with
+  | start o saved =>
+    obtain ⟨s1, job, ds, ⟨q, _, _⟩, hprep, _, hoj⟩ := sysStepJ_start h
+    have hn1 : NoRestore s1 := by
+      unfold NoRestore; rw [q.restarted, q.rgenRestored]; exact hn
+    obtain ⟨hm, hn2, hsh⟩ := prep_draws hprep hn1
+    subst hoj
+    refine ⟨hn2, ?_, ?_⟩
+    · rw [hm, q.mainDraws]; simp
+    · intro job' ds' he
+      simp only [Option.some.injEq, Prod.mk.injEq] at he
+      obtain ⟨_, rfl⟩ := he
+      exact hsh
+  | initDone =>
+    obtain ⟨⟨q, _, _⟩, _, hoj⟩ := sysStepJ_initDone h
+    subst hoj
+    refine ⟨?_, by simpa using q.mainDraws, by intro _ _ he; simp at he⟩
+    unfold NoRestore
+    rw [q.restarted, q.rgenRestored]; exact hn
+  | step k status newW o =>
+    obtain ⟨job, s2, hjob, hmid, hrest⟩ := sysStepJ_step h
+    have hm : s2.mainDraws = y.s.mainDraws ∧ NoRestore s2 := by
+      unfold midState at hmid
+      simp only [hjob] at hmid
+      split at hmid
+      · exact absurd hmid (by simp)
+      rename_i s2' pns it htreat
+      simp only [Except.ok.injEq] at hmid
+      subst hmid
+      obtain ⟨q, _⟩ := treatOutput_quiet job status newW _ pns it htreat
+      refine ⟨q.mainDraws, ?_⟩
+      unfold NoRestore; rw [q.restarted, q.rgenRestored]; exact hn
+    obtain ⟨e1, hn2⟩ := hm
+    rcases hrest with ⟨job', ds, hprep, _, hoj⟩ | ⟨hs, _, hoj⟩
+    · obtain ⟨hm, hn3, hsh⟩ := prep_draws hprep hn2
+      subst hoj
+      refine ⟨hn3, ?_, ?_⟩
+      · rw [hm, e1]; simp
+      · intro job'' ds' he
+        simp only [Option.some.injEq, Prod.mk.injEq] at he
+        obtain ⟨_, rfl⟩ := he
+        exact hsh
+    · subst hoj
+      rw [hs]
+      exact ⟨hn2, by simpa using e1, by intro _ _ he; simp at he⟩
+
+/-! ### whole histories -/
+
+/-- every entry of the log carries the streams of its ordinal in the seed sequence of entropy `en` -/
+def Tagged (en : Nat) (log : List Entry) : Prop := ∀ e ∈ log, StreamsAt en e.ord e.job.picked
+
+theorem Tagged.append {en : Nat} {l1 l2 : List Entry} (h1 : Tagged en l1) (h2 : Tagged en l2) :
+    Tagged en (l1 ++ l2) := by
+  intro e he
+  rcases List.mem_append.mp he with h | h
+  · exact h1 e h
+  · exact h2 e h
+
+/-- the ordinals of the fresh entries of a log, in order -/
+def freshOrds (log : List Entry) : List Nat := (log.filter (·.fresh)).map (·.ord)
+
+/-- the ordinals of the re-issue entries of a log, in order -/
+def reissueOrds (log : List Entry) : List Nat := (log.filter (fun e => !e.fresh)).map (·.ord)
+
+theorem freshOrds_append (l1 l2 : List Entry) : freshOrds (l1 ++ l2) = freshOrds l1 ++ freshOrds l2 := by
+  simp [freshOrds]
+
+theorem reissueOrds_append (l1 l2 : List Entry) :
+    reissueOrds (l1 ++ l2) = reissueOrds l1 ++ reissueOrds l2 := by
+  simp [reissueOrds]
+
+/-- **the log of any history from any state**: (a) every entry carries the streams of its ordinal;
+    (b) the fresh entries have the ordinals `spawned, spawned+1, …`; (c) the re-issue entries take,
+    in order, ordinals that are on record in `locked0Ord`. -/
+theorem ghost_spec : ∀ (evs : List Ev) (y : Sys),
+    Tagged y.s.entropy (ghost y evs) ∧
+    freshOrds (ghost y evs) = List.range' y.s.spawned (freshOrds (ghost y evs)).length ∧
+    ((reissueOrds (ghost y evs)).map some).Sublist y.s.locked0Ord := by
+  intro evs
+  induction evs with
+  | nil => intro y; exact ⟨by intro e he; simp [ghost] at he, by simp [ghost, freshOrds], by simp [ghost, reissueOrds]⟩
+  | cons ev rest ih =>
+    intro y
+    simp only [ghost]
+    split
+    · exact ⟨by intro e he; simp at he, by simp [freshOrds], by simp [reissueOrds]⟩
+    rename_i y1 oj hj
+    obtain ⟨_, hen, hnone, hsome⟩ := sysStepJ_issue hj
+    obtain ⟨i1, i2, i3⟩ := ih y1
+    rw [hen] at i1
+    cases oj with
+    | none =>
+      obtain ⟨hsp, hl0⟩ := hnone rfl
+      simp only [Option.toList_none, List.map_nil, List.nil_append]
+      rw [hsp] at i2
+      rw [hl0] at i3
+      exact ⟨i1, i2, i3⟩
+    | some jd =>
+      obtain ⟨job, ds⟩ := jd
+      obtain ⟨ord, fresh, htag, hst, hk⟩ := hsome job ds rfl
+      simp only [Option.toList_some, List.map_cons, List.map_nil, htag]
+      refine ⟨?_, ?_, ?_⟩
+      · apply Tagged.append _ i1
+        intro e he
+        simp only [List.mem_singleton] at he
+        subst he
+        exact hst
+      · rcases hk with ⟨hf, ho, hsp, _⟩ | ⟨hf, hsp, _⟩
+        · subst hf
+          rw [freshOrds_append]
+          simp only [freshOrds, List.filter_cons, List.filter_nil, ↓reduceIte, List.map_cons,
+            List.map_nil, List.singleton_append, List.length_cons]
+          rw [ho, List.range'_succ]
+          congr 1
+          have := i2
+          rw [hsp] at this
+          simpa [freshOrds] using this
+        · subst hf
+          rw [freshOrds_append]
+          simp only [freshOrds, List.filter_cons, List.filter_nil, Bool.false_eq_true, ↓reduceIte,
+            List.map_nil, List.nil_append]
+          have := i2
+          rw [hsp] at this
+          simpa [freshOrds] using this
+      · rcases hk with ⟨hf, _, _, hl⟩ | ⟨hf, _, hl⟩
+        · subst hf
+          rw [reissueOrds_append]
+          simp only [reissueOrds, List.filter_cons, List.filter_nil, Bool.not_true, Bool.false_eq_true,
+            ↓reduceIte, List.map_nil, List.nil_append]
+          rcases hl with hl | hl
+          · rw [← hl]; exact i3
+          · rw [hl] at i3
+            exact i3.trans (List.tail_sublist _)
+        · subst hf
+          rw [reissueOrds_append, hl]
+          simp only [reissueOrds, List.filter_cons, List.filter_nil, Bool.not_false, ↓reduceIte,
+            List.map_cons, List.map_nil, List.singleton_append]
+          exact List.Sublist.cons_cons _ i3
+
+/-- the seed and entropy never change along a history; the spawn counter counts the fresh jobs -/
+theorem run_spawned : ∀ (evs : List Ev) {y y' : Sys}, run y evs = .ok y' →
+    y'.s.seed = y.s.seed ∧ y'.s.entropy = y.s.entropy ∧
+      y'.s.spawned = y.s.spawned + (freshOrds (ghost y evs)).length ∧
+      y'.s.locked0Ord.Sublist y.s.locked0Ord := by
+  intro evs
+  induction evs with
+  | nil =>
+    intro y y' h
+    simp only [run, Except.ok.injEq] at h
+    subst h
+    exact ⟨rfl, rfl, by simp [ghost, freshOrds], List.Sublist.refl _⟩
+  | cons ev rest ih =>
+    intro y y' h
+    obtain ⟨y1, oj, hj, hr⟩ := run_cons h
+    obtain ⟨h1, h2, hnone, hsome⟩ := sysStepJ_issue hj
+    obtain ⟨g1, g2, g3, g4⟩ := ih hr
+    refine ⟨g1.trans h1, g2.trans h2, ?_, ?_⟩
+    · rw [g3]
+      simp only [ghost, hj, freshOrds_append, List.length_append]
+      cases oj with
+      | none =>
+        rw [(hnone rfl).1]
+        simp [freshOrds]
+      | some jd =>
+        obtain ⟨job, ds⟩ := jd
+        obtain ⟨ord, fresh, htag, _, hk⟩ := hsome job ds rfl
+        simp only [Option.toList_some, List.map_cons, List.map_nil, htag]
+        rcases hk with ⟨hf, _, hsp, _⟩ | ⟨hf, hsp, _⟩
+        · subst hf; rw [hsp]; simp [freshOrds]; omega
+        · subst hf; rw [hsp]; simp [freshOrds]
+    · refine g4.trans ?_
+      cases oj with
+      | none => rw [(hnone rfl).2]; exact List.Sublist.refl _
+      | some jd =>
+        obtain ⟨job, ds⟩ := jd
+        obtain ⟨ord, fresh, _, _, hk⟩ := hsome job ds rfl
+        rcases hk with ⟨_, _, _, hl⟩ | ⟨_, _, hl⟩
+        · rcases hl with hl | hl
+          · rw [hl]; exact List.Sublist.refl _
+          · rw [hl]; exact List.tail_sublist _
+        · rw [hl]; exact List.sublist_cons_self _ _
+
+/-- the scheduler stream advances by exactly the draw requests of the picks -/
+theorem run_mainDraws : ∀ (evs : List Ev) {y y' : Sys}, run y evs = .ok y' → NoRestore y.s →
+    NoRestore y'.s ∧ y'.s.mainDraws = y.s.mainDraws + (schedDraws y evs).length := by
+  intro evs
+  induction evs with
+  | nil =>
+    intro y y' h hn
+    simp only [run, Except.ok.injEq] at h
+    subst h
+    exact ⟨hn, by simp [schedDraws, ghost]⟩
+  | cons ev rest ih =>
+    intro y y' h hn
+    obtain ⟨y1, oj, hj, hr⟩ := run_cons h
+    obtain ⟨hn1, hm1, _⟩ := sysStepJ_draws hj hn
+    obtain ⟨hn2, hm2⟩ := ih hr hn1
+    refine ⟨hn2, ?_⟩
+    rw [hm2, hm1]
+    simp only [schedDraws, ghost, hj, List.flatMap_append, List.length_append]
+    cases oj with
+    | none => simp
+    | some jd => simp; omega
+
+/-- every group of requests in the ghost log has one of the three shapes of `pick()` (or is empty:
+    a re-issued job draws nothing) -/
+theorem ghost_drawShape : ∀ (evs : List Ev) (y : Sys), NoRestore y.s →
+    ∀ e ∈ ghost y evs, e.draws = [] ∨ DrawShape e.draws := by
+  intro evs
+  induction evs with
+  | nil => intro y _ e h; simp [ghost] at h
+  | cons ev rest ih =>
+    intro y hn e he
+    simp only [ghost] at he
+    split at he
+    · simp at he
+    rename_i y1 oj hj
+    obtain ⟨hn1, _, hsh⟩ := sysStepJ_draws hj hn
+    rcases List.mem_append.mp he with hm | hm
+    · cases oj with
+      | none => simp at hm
+      | some x =>
+        simp only [Option.toList_some, List.map_cons, List.map_nil, List.mem_singleton] at hm
+        subst hm
+        exact hsh x.1 x.2 rfl
+    · exact ih y1 hn1 e hm
+
+/-- every job in flight at the end was there at the beginning or was issued by the history -/
+theorem jobs_subset_issued : ∀ (evs : List Ev) {y y' : Sys}, run y evs = .ok y' →
+    ∀ job ∈ y'.jobs, job ∈ y.jobs ∨ job ∈ issued y evs := by
+  intro evs
+  induction evs with
+  | nil =>
+    intro y y' h job hm
+    simp only [run, Except.ok.injEq] at h
+    subst h
+    exact Or.inl hm
+  | cons ev rest ih =>
+    intro y y' h job hm
+    obtain ⟨y1, oj, hj, hr⟩ := run_cons h
+    have hstep : ∀ job ∈ y1.jobs, job ∈ y.jobs ∨ job ∈ oj.toList.map (·.1) := by
+      intro job hm1
+      cases ev with
+      | start o saved =>
+        simp only [sysStepJ] at hj
+        generalize initiate y.s = r at hj
+        obtain ⟨s1, go⟩ := r
+        simp only [] at hj
+        split at hj
+        · exact absurd hj (by simp)
+        split at hj
+        · exact absurd hj (by simp)
+        simp only [Except.ok.injEq, Prod.mk.injEq] at hj
+        obtain ⟨rfl, rfl⟩ := hj
+        rcases List.mem_append.mp hm1 with h1 | h1
+        · exact Or.inl h1
+        · exact Or.inr (by simpa using h1)
+      | initDone =>
+        simp only [sysStepJ] at hj
+        generalize initiate y.s = r at hj
+        obtain ⟨s1, go⟩ := r
+        simp only [] at hj
+        split at hj
+        · exact absurd hj (by simp)
+        simp only [Except.ok.injEq, Prod.mk.injEq] at hj
+        obtain ⟨rfl, rfl⟩ := hj
+        exact Or.inl hm1
+      | step k status newW o =>
+        simp only [sysStepJ] at hj
+        generalize loop y.s = r at hj
+        obtain ⟨s1, go⟩ := r
+        simp only [] at hj
+        split at hj
+        · exact absurd hj (by simp)
+        split at hj
+        · exact absurd hj (by simp)
+        split at hj
+        · exact absurd hj (by simp)
+        split at hj
+        · split at hj
+          · exact absurd hj (by simp)
+          simp only [Except.ok.injEq, Prod.mk.injEq] at hj
+          obtain ⟨rfl, rfl⟩ := hj
+          rcases List.mem_append.mp hm1 with h1 | h1
+          · exact Or.inl (List.mem_of_mem_eraseIdx h1)
+          · exact Or.inr (by simpa using h1)
+        · simp only [Except.ok.injEq, Prod.mk.injEq] at hj
+          obtain ⟨rfl, rfl⟩ := hj
+          exact Or.inl (List.mem_of_mem_eraseIdx hm1)
+    rcases ih hr job hm with h1 | h1
+    · rcases hstep job h1 with h2 | h2
+      · exact Or.inl h2
+      · right
+        simp only [issued, ghost, hj, List.map_append, List.mem_append, List.map_map]
+        exact Or.inl h2
+    · right
+      simp only [issued, ghost, hj, List.map_append, List.mem_append]
+      exact Or.inr h1
+
+
 /-- `treat_output` at the completion of job `k`, in terms of the random-stream fields -/
 theorem midState_spec {y : Sys} {k : Nat} {status : Status} {newW : List (List Rat)} {s2 : St}
     (h : midState y k status newW = .ok s2) :
     ∃ job, y.jobs[k]? = some job ∧ s2.seed = y.s.seed ∧ s2.entropy = y.s.entropy ∧
       s2.spawned = y.s.spawned ∧ s2.cstep = y.s.cstep + 1 ∧ s2.locked0 = y.s.locked0 ∧
-      s2.mainDraws = y.s.mainDraws ∧ s2.locked = popAll job.picked y.s.locked := by
+      s2.locked0Ord = y.s.locked0Ord ∧ s2.mainDraws = y.s.mainDraws ∧
+      (s2.locked, s2.lockedOrd) = popAll job.picked (y.s.locked, y.s.lockedOrd) := by
   unfold midState at h
   simp only [] at h
   split at h
@@ -765,40 +819,44 @@ theorem midState_spec {y : Sys} {k : Nat} {status : Status} {newW : List (List R
   simp only [Except.ok.injEq] at h
   subst h
   obtain ⟨q, hl⟩ := treatOutput_quiet job status newW _ pns it htreat
-  exact ⟨job, hjob, q.seed, q.entropy, q.spawned, q.cstep, q.locked0, q.mainDraws, hl⟩
+  exact ⟨job, hjob, q.seed, q.entropy, q.spawned, q.cstep, q.locked0, q.locked0Ord, q.mainDraws, hl⟩
 
 /-! ### the restart image -/
 
 /-- **what a restart rebuilds** (`setup_config` + `__init__` + `set_rgen` + `load_paths`): the seed
-    sequence of the configured seed with spawn counter `cstep + #recorded in-flight jobs`. -/
+    sequence of the configured seed with spawn counter `cstep + #recorded in-flight jobs`; the
+    recorded jobs wait in `locked0` with their ordinals in `locked0Ord`. -/
 theorem restore_spec {im : Image} {n workers tsteps : Nat} {occ : List (List Int)}
     {ensEng : List (List Nat)} {weightOf : Nat → List Rat} {s' : St}
     (h : restore im n workers tsteps occ ensEng weightOf = .ok s') :
     s'.seed = im.seed ∧ s'.entropy = im.seed ∧ s'.spawned = im.cstep + im.locked.length ∧
-      s'.cstep = im.cstep ∧ s'.locked = [] ∧ s'.locked0 = im.locked ∧ s'.restarted = true ∧
-      s'.rgenRestored = false := by
+      s'.cstep = im.cstep ∧ s'.locked = [] ∧ s'.lockedOrd = [] ∧ s'.locked0 = im.locked ∧
+      s'.locked0Ord = im.lockedOrd.map some ∧ s'.restarted = true ∧ s'.rgenRestored = false := by
   unfold restore at h
   simp only [] at h
-  obtain ⟨q, ql⟩ := loadPaths_quiet h
-  refine ⟨q.seed, q.entropy, ?_, q.cstep, ql, q.locked0, q.restarted, q.rgenRestored⟩
+  obtain ⟨q, ql, qo⟩ := loadPaths_quiet h
+  refine ⟨q.seed, q.entropy, ?_, q.cstep, ql, qo, q.locked0, q.locked0Ord, q.restarted, q.rgenRestored⟩
   rw [q.spawned]
   simp [blank]
 
 theorem persist_fields (s : St) : (persist s).seed = s.seed ∧ (persist s).cstep = s.cstep ∧
-    (persist s).locked.length = s.locked.length ∧ (persist s).rngDraws = s.mainDraws := by
+    (persist s).locked.length = s.locked.length ∧ (persist s).rngDraws = s.mainDraws ∧
+    (persist s).lockedOrd = s.lockedOrd := by
   simp [persist]
 
-/-- **restart of a state whose record is exact**: if `spawned = cstep + #locked` and the entropy is
-    the configured seed, the restarted sampler continues the same seed sequence at the same counter -/
+/-- **restart of a state whose record is exact**: if `spawned = cstep + #locked`, the restarted
+    sampler continues the same seed sequence at the same counter, and the ordinals on record wait
+    in `locked0Ord` -/
 theorem restore_continues {s s' : St} {n workers tsteps : Nat} {occ : List (List Int)}
     {ensEng : List (List Nat)} {weightOf : Nat → List Rat}
     (hc : s.spawned = s.cstep + s.locked.length)
     (h : restore (persist s) n workers tsteps occ ensEng weightOf = .ok s') :
     s'.seed = s.seed ∧ s'.entropy = s.seed ∧ s'.spawned = s.spawned ∧ s'.locked = [] ∧
-      s'.locked0.length = s.locked.length ∧ s'.cstep = s.cstep := by
-  obtain ⟨h1, h2, h3, h4, h5, h6, _, _⟩ := restore_spec h
-  obtain ⟨p1, p2, p3, _⟩ := persist_fields s
-  refine ⟨h1.trans p1, h2.trans p1, ?_, h5, by rw [h6, p3], h4.trans p2⟩
+      s'.lockedOrd = [] ∧ s'.locked0.length = s.locked.length ∧ s'.cstep = s.cstep ∧
+      s'.locked0Ord = s.lockedOrd.map some := by
+  obtain ⟨h1, h2, h3, h4, h5, h5', h6, h7, _, _⟩ := restore_spec h
+  obtain ⟨p1, p2, p3, _, p5⟩ := persist_fields s
+  refine ⟨h1.trans p1, h2.trans p1, ?_, h5, h5', by rw [h6, p3], h4.trans p2, by rw [h7, p5]⟩
   rw [h3, p2, p3, hc]
 
 end Infretis.Repex
